@@ -1,5 +1,6 @@
 import OVM.Props.C01
-import OVM.Refine.GlobalBU2
+import OVM.Refine.GlobalBU4
+import OVM.Refine.GlobalLoops2
 import OVM.Refine.GlobalQueries
 /-
   C01, reachability part — the cache invariant holds in EVERY state the API can reach.
@@ -28,7 +29,7 @@ import OVM.Refine.GlobalQueries
 namespace OVM.Props.C01Reach
 open OVM OVM.Kernel
 open OVM.Kernel.Global (GInv ginv_empty ginv_step ginv_run ginv_reachable closed_iff_up historyOKB historyOK_of_B SameDefs
-  BUCovered HistoryCovered same_step_partial same_run_partial same_toggle_left same_opOK)
+  same_step same_run same_run_toggles stripBU same_toggle_left same_opOK FaceCyc)
 
 /-- the empty mesh satisfies the global invariant -/
 theorem inv_init : GInv ({} : Kernel) := ginv_empty
@@ -138,6 +139,52 @@ theorem derived_queries_exact_on_reachable_states (ops : List Op) (h : Global.Hi
     (k.fBU = true → ∀ c, c < k.nC → k.qBoundaryC c = k.sBoundaryC c) :=
   derived_queries_exact (run {} ops) (reach_inv ops h)
 
+/-- **vertex → cells**, under the one hypothesis beyond `GInv` that it needs: every live face is cyclically connected
+    (`Global.FaceCyc`: each halfedge of the face ends where another starts and starts where another ends — what the
+    topology check of `add_face` guarantees, `Global.cyc_of_checked`; executable form `Global.faceCycB`).  Without it
+    the statement is FALSE: with an unchecked one-halfedge "face" `[x]`, `x : a → b`, in a cell through halfface
+    `2f`, the scan `sVC b` lists the cell and `outgoing(b) → halffaces → incident cell` does not (it reaches `2f+1`).
+    `FaceCyc` is a hypothesis on the STATE here; it is not yet carried through histories (it is broken exactly by
+    unchecked `add_face` / `set_face` with a non-loop and by `set_edge` on an edge of a live face). -/
+theorem vertex_cells_exact (k : Kernel) (hi : GInv k) (hy : FaceCyc k) (hv : k.vBU = true) (he : k.eBU = true)
+    (hb : k.fBU = true) (v : Nat) (hlt : v < k.nV) : k.qVC v = k.sVC v :=
+  Global.qVC_exact hi.wf hi.one hi.closed hy hv he hb hlt
+
+/-- the executable test of the extra hypothesis is sound -/
+theorem face_cyc_test_sound (k : Kernel) (h : Global.faceCycB k = true) : FaceCyc k := Global.faceCyc_of_B h
+
+/-- vertex → halffaces, edge → cells, and the six boundary iterators (the entity iterator filtered by the exact
+    `is_boundary`) on a state satisfying the invariant -/
+theorem more_queries_exact (k : Kernel) (hi : GInv k) :
+    (k.vBU = true → k.eBU = true → ∀ v, v < k.nV → k.qVHF v = k.sVHF v) ∧
+    (k.eBU = true → k.fBU = true → ∀ e, e < k.nE → (k.qEC e).Perm (k.sHEC (heOf e 0)) ∧ (k.qEC e).Nodup) ∧
+    (k.vBU = true → k.eBU = true → k.fBU = true → k.qBIV = k.liveVerts.filter k.sBoundaryV) ∧
+    (k.eBU = true → k.fBU = true →
+      k.qBIHE = ((List.range k.nHE).filter (fun h => !k.eDeleted (eOf h))).filter k.sBoundaryHE) ∧
+    (k.eBU = true → k.fBU = true → k.qBIE = k.liveEdges.filter k.sBoundaryE) ∧
+    (k.fBU = true → k.qBIHF = ((List.range k.nHF).filter (fun h => !k.fDeleted (eOf h))).filter k.sBoundaryHF) ∧
+    (k.fBU = true → k.qBIF = k.liveFaces.filter k.sBoundaryF) ∧
+    (k.fBU = true → k.qBIC = k.liveCells.filter k.sBoundaryC) :=
+  ⟨fun hv he v hlt => Global.qVHF_exact hi.wf hi.closed hv he hlt,
+   fun he hb e hlt => Global.qEC_exact hi.wf hi.one he hb hlt,
+   fun hv he hb => Global.qBIV_exact hi.wf hv he hb, fun he hb => Global.qBIHE_exact hi.wf he hb,
+   fun he hb => Global.qBIE_exact hi.wf he hb, fun hb => Global.qBIHF_exact hi.wf hb,
+   fun hb => Global.qBIF_exact hi.wf hb, fun hb => Global.qBIC_exact hi.wf hb⟩
+
+/-- … on every state reachable from the empty mesh by valid calls -/
+theorem more_queries_exact_on_reachable_states (ops : List Op) (h : Global.HistoryOK {} ops) :
+    let k := run {} ops
+    (k.vBU = true → k.eBU = true → ∀ v, v < k.nV → k.qVHF v = k.sVHF v) ∧
+    (k.eBU = true → k.fBU = true → ∀ e, e < k.nE → (k.qEC e).Perm (k.sHEC (heOf e 0)) ∧ (k.qEC e).Nodup) ∧
+    (k.vBU = true → k.eBU = true → k.fBU = true → k.qBIV = k.liveVerts.filter k.sBoundaryV) ∧
+    (k.eBU = true → k.fBU = true →
+      k.qBIHE = ((List.range k.nHE).filter (fun h => !k.eDeleted (eOf h))).filter k.sBoundaryHE) ∧
+    (k.eBU = true → k.fBU = true → k.qBIE = k.liveEdges.filter k.sBoundaryE) ∧
+    (k.fBU = true → k.qBIHF = ((List.range k.nHF).filter (fun h => !k.fDeleted (eOf h))).filter k.sBoundaryHF) ∧
+    (k.fBU = true → k.qBIF = k.liveFaces.filter k.sBoundaryF) ∧
+    (k.fBU = true → k.qBIC = k.liveCells.filter k.sBoundaryC) :=
+  more_queries_exact (run {} ops) (reach_inv ops h)
+
 /-! ### non-vacuity -/
 
 /-- a history of 25 valid calls: a tetrahedron built through `add_face(vertices)` and a checked `add_cell`, a
@@ -174,31 +221,76 @@ example : (run {} (reachHistory.take 15)).qVF 2 = (run {} (reachHistory.take 15)
   refine ⟨((derived_queries_exact_on_reachable_states _ (history_test_sound {} _ (by decide))).2.2.1
     (by decide) (by decide) (by decide) 2 (by decide)), by decide, by decide⟩
 
+set_option maxRecDepth 1000000 in
+/-- non-vacuity of `vertex_cells_exact`: the tetrahedron of `reachHistory` (after the 7th call) passes the executable
+    `FaceCyc` test and vertex 3 lies in its one cell; and the counterexample of the doc comment: one unchecked
+    one-halfedge face used by an (unchecked) cell — valid calls, `GInv` holds, `FaceCyc` fails, and the two answers
+    for the END vertex of the halfedge differ -/
+example :
+    (run {} (reachHistory.take 7)).qVC 3 = (run {} (reachHistory.take 7)).sVC 3 ∧ (run {} (reachHistory.take 7)).sVC 3 = [0] ∧
+    (let bad : List Op := [.addNVertices 2, .addEdge 0 1 false, .addFaceHe false [0], .addCell false [0]]
+     Global.historyOKB {} bad = true ∧ Global.faceCycB (run {} bad) = false ∧
+     (run {} bad).qVC 1 = [] ∧ (run {} bad).sVC 1 = [0]) := by
+  refine ⟨vertex_cells_exact _ (reach_inv _ (history_test_sound {} _ (by decide))) (face_cyc_test_sound _ (by decide))
+    (by decide) (by decide) (by decide) 3 (by decide), by decide, by decide⟩
+
 /-! ## C12 on reachable states: bottom-up incidences are optional
 
-`SameDefs k1 k2` (OVM/Refine/GlobalBU.lean): same counts, deletion flags, pending counters, deletion modes, property
-columns, and the same stored definition of every NOT-deleted edge, face and cell; nothing is said about the caches or
-about which kinds are enabled.  (Definitions of flagged entities are not compared: in deferred mode the cache-guided
-index swaps do not visit them, the linear scans do — OVM/Refine/CacheSwapSpec.lean.)  -/
+`SameDefs k1 k2` (OVM/Refine/GlobalBU.lean) compares EXACTLY: the vertex count, the lengths of the edge / face / cell
+arrays, the four deletion-flag arrays, the four pending-deletion counters, the two deletion-mode switches, all
+property columns, and the stored definition of every NOT-deleted edge, face and cell.  It does not compare: the three
+bottom-up caches, which kinds are enabled, the ghost flag of the model, and the stored definitions of entities that
+are flagged deleted (in deferred mode the cache-guided index swaps do not visit them, the linear scans do —
+OVM/Refine/CacheSwapSpec.lean; they are erased by `collect_garbage` before anything reads them).  In immediate mode
+nothing is flagged and `SameDefs` is equality of all definitions (`Global.dOf_eq_of_same`).  -/
 
-/-- **one valid call, any two bottom-up configurations**: states that agree on everything but the caches are taken to
-    states that agree on everything but the caches, and both keep the global invariant (so every enabled cache is
-    the scan).  `_partial` — covered (`BUCovered`): add_vertex, add_n_vertices, add_edge, add_face (both
-    forms; the vertex form since 8c92632, when `add_edge`'s duplicate search became independent of the incidences —
-    /verif/findings/C12-add-edge-duplicate-order.md), add_cell, set_*, the four index swaps, the four DEFERRED
-    deletions with their closures, the mode switches and collect_garbage calls that do not collect,
-    enable_fast_deletion, every bottom-up toggle, clear.  Not covered: immediate deletions and a collecting
-    collect_garbage — open (see `Global.BUCovered`). -/
-theorem bottom_up_optional_partial (k1 k2 : Kernel) (s : SameDefs k1 k2) (i1 : GInv k1) (i2 : GInv k2) (op : Op)
-    (hok : Global.OpOK k1 op) (hc : BUCovered k1 op) :
+/-- **one valid call, any two bottom-up configurations, the WHOLE vocabulary, all four deletion modes**: states that
+    agree on everything but the caches are taken to states that agree on everything but the caches, and both keep
+    the global invariant (so every enabled cache is the scan).  Immediate deletions: OVM/Refine/GlobalBU3.lean
+    (each stage is an explicit function of the cache-free part of the state); `collect_garbage` and the collecting
+    `enable_deferred_deletion(false)`: OVM/Refine/GlobalBU4.lean (lockstep over the four sweeps). -/
+theorem bottom_up_optional (k1 k2 : Kernel) (s : SameDefs k1 k2) (i1 : GInv k1) (i2 : GInv k2) (op : Op)
+    (hok : Global.OpOK k1 op) :
     SameDefs (k1.step op).1 (k2.step op).1 ∧ GInv (k1.step op).1 ∧ GInv (k2.step op).1 :=
-  ⟨same_step_partial s i1 i2 op hok hc, ginv_step k1 op i1 hok, ginv_step k2 op i2 (same_opOK s op hok)⟩
+  ⟨same_step s i1 i2 op hok, ginv_step k1 op i1 hok, ginv_step k2 op i2 (same_opOK s op hok)⟩
 
-/-- the same history of valid, covered calls in two bottom-up configurations -/
-theorem bottom_up_optional_history_partial (k1 k2 : Kernel) (ops : List Op) (s : SameDefs k1 k2) (i1 : GInv k1)
-    (i2 : GInv k2) (hr : Global.HistoryOK k1 ops) (hc : HistoryCovered k1 ops) :
+/-- the same history of valid calls in two bottom-up configurations -/
+theorem bottom_up_optional_history (k1 k2 : Kernel) (ops : List Op) (s : SameDefs k1 k2) (i1 : GInv k1)
+    (i2 : GInv k2) (hr : Global.HistoryOK k1 ops) :
     SameDefs (k1.run ops) (k2.run ops) ∧ GInv (k1.run ops) ∧ GInv (k2.run ops) :=
-  same_run_partial ops s i1 i2 hr hc
+  same_run ops s i1 i2 hr
+
+/-- **C12's quantifier**: bottom-up kinds "toggled at arbitrary points of every history" — two histories from the
+    empty mesh that are the same list of calls once the `enable_*_bottom_up_incidences` calls are removed end in
+    meshes with the same definitions, counts, deletion flags and property values -/
+theorem bottom_up_optional_toggled_histories (ops1 ops2 : List Op) (hr : Global.HistoryOK {} ops1)
+    (he : stripBU ops1 = stripBU ops2) :
+    SameDefs (run {} ops1) (run {} ops2) ∧ GInv (run {} ops1) ∧ GInv (run {} ops2) :=
+  same_run_toggles ops1 ops2 (SameDefs.refl _) ginv_empty ginv_empty hr he
+
+/-- `reachHistory` without its last call, with three more toggles inserted: the vertex kind off before the swaps, the
+    face kind off before `collect_garbage`, the edge kind off before the immediate deletions -/
+def reachHistoryToggled : List Op :=
+  [.addNVertices 5, .addFaceV [0,1,2], .addFaceV [0,3,1], .addFaceV [1,3,2], .addFaceV [0,2,3],
+   .addCell true [0,2,4,6], .addEdge 3 4 false, .enableBU 0 false,
+   .swapVertex 0 4, .swapEdge 0 6, .swapFace 0 3, .swapCell 0 0,
+   .setEdge 0 4 3,
+   .enableBU 1 false, .deleteFace 1, .enableBU 1 true, .enableBU 2 false, .collectGarbage,
+   .enableDeferred false, .enableBU 1 false, .deleteEdge 2,
+   .enableFast false, .addVertex, .deleteVertex 1,
+   .enableDeferred true, .deleteEdge 0, .enableDeferred false]
+
+set_option maxRecDepth 1000000 in
+/-- non-vacuity of `bottom_up_optional_toggled_histories` on the whole vocabulary: construction, swaps, a deferred
+    deletion, `collect_garbage` (fast), a fast immediate `delete_edge`, an index-shifting immediate `delete_vertex`, a
+    deferred `delete_edge` and the collecting mode switch, once with the caches mostly on and once with all three
+    kinds switched off along the way: same two edges on five vertices at the end -/
+example : SameDefs (run {} (reachHistory.take 24)) (run {} reachHistoryToggled) ∧
+    (run {} reachHistoryToggled).edges = [(3, 2), (2, 1)] ∧ (run {} reachHistoryToggled).vBU = false ∧
+    (run {} reachHistoryToggled).eBU = false ∧ (run {} reachHistoryToggled).fBU = false ∧
+    (run {} (reachHistory.take 24)).vBU = true :=
+  ⟨(bottom_up_optional_toggled_histories _ _ (history_test_sound {} _ (by decide)) (by decide)).1,
+   by decide, by decide, by decide, by decide, by decide⟩
 
 /-- **safe to disable, transparent to re-enable, at any moment**: toggling a kind changes nothing but that kind's
     cache, and (by `GInv`, kept by the toggle) a re-enabled cache is exactly the scan over the definitions — the
@@ -237,10 +329,7 @@ example :
     rw [e]
     exact (same_toggle_left (same_toggle_left (same_toggle_left (SameDefs.refl _) 0 false) 1 false) 2 false).symm
   have hr : Global.HistoryOK (run {} buPre) buOps := history_test_sound _ _ (by decide)
-  have hc : HistoryCovered (run {} buPre) buOps :=
-    ⟨trivial, trivial, trivial, trivial, trivial, trivial, (by show Kernel.deferred _ = true; decide),
-     (by show Kernel.deferred _ = true; decide), trivial⟩
-  exact ⟨(bottom_up_optional_history_partial _ _ buOps s i1 i2 hr hc).1, by decide, by decide, by decide, by decide,
+  exact ⟨(bottom_up_optional_history _ _ buOps s i1 i2 hr).1, by decide, by decide, by decide, by decide,
     by decide⟩
 
 end OVM.Props.C01Reach
